@@ -192,6 +192,22 @@ NamedEnumTwice(r, a, b) ==
   /\ typ' = "rule:" \o NamedRuleTexts[r]
   /\ expect' = Verdict(a # 4 /\ b # 4)
 
+\* ---- regex rules whose expression begins or ends with a slash, or escapes it (a JSight `regex` rule has no delimiters:
+\* every character belongs to the expression); the value next to each matches
+RegexRuleTexts == << "\"/api/v1\" // {regex: \"^\\\\/api\\\\/\"}",
+                "\"//x\" // {regex: \"/+x\"}",
+                "\"a/\" // {regex: \"\\\\/$\"}",
+                "\"/a\" // {regex: \"^/\"}",
+                "\"ba/c\" // {regex: \"a/\"}",
+                "\"a/b\" // {regex: \"/\"}",
+                "\"/\" // {regex: \"^\\\\/$\"}",
+                "\"a//b\" // {regex: \"\\\\/\\\\/\"}",
+                "\"x\" // {regex: \"/?\"}",
+                "\"///\" // {regex: \"^[/]+$\"}" >>
+RegexRule(i, skel) ==
+  /\ stage = "start" /\ fam' = "regexrule" /\ stage' = "done" /\ list' = <<>>
+  /\ root' = Wrap(skel, RegexRuleTexts[i]) /\ typ' = "" /\ expect' = "accept"
+
 \* ---- size: n members that all refer to one user type (or carry one rule each), for the sizes at which an
 \* implementation may switch its bookkeeping or meet a limit.  The text is long and regular: the specification gives
 \* shape and size, `root` holds the member pattern with # for the member number, the harness repeats it n times.
@@ -277,6 +293,7 @@ Next == \/ StartEnum
         \/ \E i \in 1..Len(KeyStrings), f \in BOOLEAN : KeyShortcutTwin(i, f)
         \/ \E m \in 0..31, val \in {"\"a\"", "\"b\"", "\"z\""} : EnumLines(m, val)
         \/ \E r \in 1..Len(NamedRuleTexts), a, b \in 1..Len(NamedEnumVals) : NamedEnumTwice(r, a, b)
+        \/ \E i \in 1..Len(RegexRuleTexts), s \in {"root", "prop", "item"} : RegexRule(i, s)
         \/ \E v \in OrValues, i, j \in 1..Len(TypeVocab), fi, fj \in {"name", "set"}, s \in {"root", "prop"}, nf \in BOOLEAN : OrVocab(v, i, j, fi, fj, s, nf)
 Spec == Init /\ [][Next]_vars
 
